@@ -214,11 +214,11 @@ def closure(repo: Repo, chk: Check) -> None:
         "setup values and orders the result by original position",
         floor=6,
     )
-    apps = [s for s in fl.calls("append") if s.reachable]
+    apps = [s for s in fl.calls("append", "insert", "add") if s.reachable and s.node.args]
     if not apps:
         raise AnalysisError(f"{f.where}: no append to the closure list")
     for s in apps:
-        arg = s.node.args[0]
+        arg = s.node.args[-1]
         chk.result(bool(has_fact(s, ["is_side_effect_free($x)"], {"x": arg})), "C06.closure-pure", f"{f.key}:append-pure", s.where(),
                    "an op joins the moved closure only under is_side_effect_free(op)",
                    f"{ast.unparse(arg)} joins the moved closure without a purity test: an op with effects (a launch, a load) can be moved/cloned",
